@@ -21,7 +21,11 @@ def _mk_slice_factor(kind, R):
             f, fv = gen_factor(w, kind, "f", R, "D")
         rho = w.index_map("rho", "Rn", R if R != 1 else None) if R != 1 else w.pick("r0")
         x = w.arr("x", "N", "D")
+        from .common import fresh_result, params_unchanged, snapshot as _snap
+        sf_ = _snap(f)
         g = f.slice(rho)                                                 # REAL
+        fresh_result(w, "frame/result-is-a-new-object", g, f)
+        params_unchanged(w, "frame/operand-unchanged", f, sf_, ("Lambda", "nu", "ln_beta", "Sigma", "mu", "ln_det_Sigma", "lnZ"))
         full = view_lnf(w, fv, x, R)
         w.equal("value", g.evaluate_ln(x), xp.take(full, rho, axis=0))
         w.check("class-preserved", type(g) is type(f) or kind in ("pdf",), f"{type(f).__name__} -> {type(g).__name__}")
@@ -96,7 +100,11 @@ def _mk_cond_on_x(kind):
         rho = w.index_map("rho", "Rn", "R")
         x = w.arr("x", "N", Dx)
         y = w.arr("y", "Ny", Dy)
+        from .common import fresh_result, params_unchanged, snapshot as _snap
+        sc_ = _snap(c)
         cs = c.slice(rho)                                                # REAL
+        fresh_result(w, "frame/result-is-a-new-object", cs, c)
+        params_unchanged(w, "frame/operand-unchanged", c, sc_, ("M", "b", "Sigma", "Lambda", "ln_det_Sigma"))
         wf_conditional(w, "sliced", cs)
         full = c.condition_on_x(x)                                       # REAL, layout r*N+n
         part = cs(x)                                                     # REAL: __call__ == condition_on_x
